@@ -27,7 +27,7 @@ or exception type + message; no tsdate code is used to decide what is expected):
                                     and at the edge of the valid ranges: the call returns, or raises ValueError /
                                     NotImplementedError with a non-empty message.  Anything else (AssertionError,
                                     IndexError, ZeroDivisionError, TypeError, tskit.LibraryError, RuntimeError,
-                                    numba errors, ...) fails, except the two isolated known conditions below.
+                                    numba errors, ...) fails, except the three isolated known conditions below.
   result-has-documented-shape       whenever a call returns: a tskit.TreeSequence when neither return_fit nor
                                     return_likelihood is set, else a tuple (ts[, fit][, likelihood]) of exactly
                                     1 + return_fit + return_likelihood elements in that order, ts a TreeSequence
@@ -50,6 +50,16 @@ or exception type + message; no tsdate code is used to decide what is expected):
                                     that the constrained times contain an edge whose parent is within 2 ulp of
                                     its child; otherwise the error counts against no-internal-error.
 
+  known-linear-space-underflow-gives-nonfinite-times
+                                    DEFECT FOUND WHILE WRITING THIS CHECK (unrepaired): inside_outside /
+                                    maximization with probability_space="linear" and a likelihood that underflows
+                                    (e.g. 7 samples, one tree, 83 mutations, mutation_rate=1e-12) produce NaN posterior
+                                    means; get_modified_ts then fails with tskit.LibraryError TSK_ERR_TIME_NONFINITE
+                                    instead of a ValueError (the documentation only says linear space "may
+                                    overflow").  Recognised by that error AND probability_space == "linear" AND NaN
+                                    node times observed at util.constrain_ages; the same error in logarithmic
+                                    space counts against no-internal-error.
+
 Input space / bound (deterministic in the seed; all inputs <= ~60 nodes so that a call takes ~0.01-0.2 s)
   inputs: ordinary simulations (one tree / several trees), no mutations, very few mutations, a deleted flank
           (region without edges), a sample isolated over half the genome, a mutation above the root, two roots,
@@ -63,8 +73,8 @@ Input space / bound (deterministic in the seed; all inputs <= ~60 nodes so that 
           rescaling_iterations 0, match_segregating_sites, regularise_roots False, singletons_phased False;
           discrete: population_size in {1e-3, 100, 1e9, dict}, probability_space, ignore_oldest_root,
           outside_standardize False, eps in {1e-12, 1e-3, 10}, no mutation rate, user prior grid with 3 timepoints.
-  quick   : 21 inputs x ~34 parameter sets + the invalid-parameter table on 2 inputs   (~900 calls)
-  thorough: ~70 inputs x ~60 parameter sets + the table on 6 inputs                      (~5000 calls)
+  quick   : 23 inputs x 45 parameter sets + the invalid-parameter table (150 entries) on 2 inputs (~1300 calls)
+  thorough: 76 inputs x 73 parameter sets + the table on 6 inputs                          (~6400 calls)
   exhaustive = False.
 Tolerances: none (types, arities, exception classes).
 NOT covered: numerical asserts inside the hypergeometric / EP kernels for inputs larger than the bound (the
@@ -232,6 +242,8 @@ def make_inputs(seed, tier):
             (f"uncalibrated(seed={s + 1})", uncalibrated(b)),
             (f"raw-node-metadata(seed={s})", raw_metadata(single)),
         ]
+    if tier == "quick":
+        out.append((f"normal-single(seed={seed * 1000 + 30},n=7)", _sim(seed * 1000 + 30, n=7, rec=0)))
     out += [
         ("polytomy(0,1,2,(3,4))", inputs.tree_to_ts((0, 1, 2, (3, 4)), 100.0, mutations={0: 1, 5: 2, 3: 1})),
         ("star(0,1,2,3)", inputs.tree_to_ts((0, 1, 2, 3), 100.0, mutations={0: 1, 1: 2})),
@@ -277,13 +289,15 @@ def sweep_calls(tier):
             ("inside_outside", dict(mutation_rate=MU, population_size={"population_size": [100, 10], "time_breaks": [30]})),
             ("maximization", dict(mutation_rate=MU, population_size=NE, eps=10.0, probability_space="linear")),
             ("inside_outside", dict(mutation_rate=MU, population_size=NE, outside_standardize=False, eps=1e-12)),
-            ("maximization", dict(mutation_rate=MU, priors="GRID3"))]
+            ("maximization", dict(mutation_rate=MU, priors="GRID3")),
+            ("inside_outside", dict(mutation_rate=1e-12, population_size=NE, probability_space="linear"))]
     if not quick:
         disc += [("inside_outside", dict(mutation_rate=MU, population_size=1e9)),
                  ("maximization", dict(mutation_rate=MU, population_size=1e-3, probability_space="linear")),
                  ("inside_outside", dict(mutation_rate=MU, priors="GRID3", return_fit=True)),
                  ("maximization", dict(mutation_rate=1e3, population_size=NE, eps=1e-3)),
-                 ("inside_outside", dict(mutation_rate=1e-12, population_size=NE, probability_space="linear")),
+                 ("maximization", dict(mutation_rate=1e-12, population_size=NE, probability_space="linear")),
+                 ("inside_outside", dict(mutation_rate=1e-12, population_size=NE, probability_space="logarithmic")),
                  ("date:inside_outside", dict(mutation_rate=MU, population_size=NE, num_threads=1, cache_inside=True))]
     C += disc
     return C
@@ -400,6 +414,9 @@ class Runner:
         finally:
             self.tsdate.util.constrain_ages = self.real_constrain
 
+    def nan_times_seen(self):
+        return any(bool(np.any(np.isnan(t))) for _, t in self.constrained)
+
     def ulp_adjacent_edge_seen(self):
         for ts, t in self.constrained:
             p, c = t[ts.edges_parent], t[ts.edges_child]
@@ -498,6 +515,9 @@ def run(req, rep):
             elif (isinstance(e, tskit.LibraryError) and "TSK_ERR_MUTATION_TIME_OLDER_THAN_PARENT_NODE" in str(e)
                   and R.ulp_adjacent_edge_seen()):
                 clause = "known-mutation-time-not-below-parent-at-float-spacing"
+            elif (isinstance(e, tskit.LibraryError) and "TSK_ERR_TIME_NONFINITE" in str(e)
+                  and kw.get("probability_space") == "linear" and R.nan_times_seen()):
+                clause = "known-linear-space-underflow-gives-nonfinite-times"
             tally(f"{clause}: {describe_exc(e)[:90]}")
             if clause.startswith("known-"):
                 known_reported[clause] = known_reported.get(clause, 0) + 1
